@@ -33,7 +33,7 @@ def op_strategy(counts=False):
                                             "mask": m, "invert": inv,
                                             "inplace": ip, "how": h},
                   AX, MASK, st.booleans(), st.booleans(),
-                  st.sampled_from(["ids", "pred"])),
+                  st.sampled_from(["ids", "pred", "pred_value"])),
         st.builds(lambda a, ip: {"op": "drop_all", "axis": a, "inplace": ip},
                   AX, st.booleans()),
         st.builds(lambda a, ip: {"op": "remove_empty", "axis": a,
@@ -244,6 +244,19 @@ def apply(t, op):
                 return Outcome(skipped="would empty the table")
         if op["how"] == "ids":
             sel = keep
+        elif op["how"] == "pred_value":
+            # a predicate that looks at the values it is handed
+            j = sum(1 for k in mk if k)
+
+            def sel(v, i, md):
+                return v[j % len(v)] != 0
+            from copy import deepcopy
+            D = deepcopy(t).matrix_data.toarray()
+            col = D[:, j % D.shape[1]] if op["axis"] == "observation" \
+                else D[j % D.shape[0], :]
+            kept = int(((col != 0) != bool(op["invert"])).sum())
+            if kept == 0:
+                return Outcome(skipped="would empty the table")
         else:
             ks = set(keep)
 
